@@ -170,6 +170,11 @@ func diffTrees(a, b string) string {
 
 // Cleanup removes scratch directories.
 func Cleanup(gs []*Generated) {
+	if scratchRoot != "" && os.Getenv("VERIF_KEEP_CORPUS") != "" {
+		// development aid: leave the generated bindings in place for inspection
+		scratchRoot = ""
+		return
+	}
 	if scratchRoot != "" {
 		os.RemoveAll(scratchRoot)
 		scratchRoot = ""
